@@ -132,9 +132,46 @@ def streams(tier, rng, P, only=None, cases=None):
         if st != "ok": return ("violation", "block program did not compile normally: " + st)
         if f["bin1"] != f["bin2"]: return ("violation", "an octave-once mark inside a block changes more than its note: %r vs %r" % (c["src"][:120], c["src2"][:120]))
         return None
+    # ---- rhythm mode: `Sub` / `Div` / tuplet / loop blocks written inside `Rhythm{…}` (with or without blanks between the keyword and its brace)
+    #      are the same blocks over the drum notes the letters stand for
+    DRUM = {"b": 36, "s": 38, "h": 42, "m": 46}
+    def mk_r():
+        cs = []
+        def body(d):
+            ra, pa = [], []
+            for _ in range(rng.randrange(1, 5)):
+                x = rng.random()
+                if d > 0 and x < 0.3:
+                    r_in, p_in = body(d - 1)
+                    kw = rng.choice(["Sub", "Sub", "SUB", "S"]); gap = rng.choice(["", "", " ", "  ", "\t"]) if kw != "S" else ""
+                    ra.append(kw + gap + "{" + r_in + "}"); pa.append("Sub{" + p_in + "}")
+                elif d > 0 and x < 0.45:
+                    r_in, p_in = body(d - 1); ln = rng.choice(["4", "2", ""])
+                    ra.append("{" + r_in + "}" + ln); pa.append("{" + p_in + "}" + ln)
+                elif d > 0 and x < 0.55:
+                    r_in, p_in = body(d - 1)
+                    ra.append("[2 " + r_in + "]"); pa.append("[2 " + p_in + "]")
+                elif x < 0.65: ra.append("r"); pa.append("r")
+                else:
+                    ch = rng.choice("bshm"); ln = rng.choice(["", "", "8", "4", "2"])
+                    ra.append(ch + ln); pa.append("n%d,%s" % (DRUM[ch], ln))
+            return " ".join(ra), " ".join(pa)
+        for i in range(1200 if big else 200):
+            r_in, p_in = body(2)
+            ln = rng.choice(["l4", "l8", "l4"])
+            a = "Rhythm{ %s %s } n100" % (ln, r_in); b = "%s %s n100" % (ln, p_in)
+            cs.append(dict(req="compile2 %s %s" % (hx(a), hx(b)), src=a, src2=b, show="%s   vs   %s" % (a, b), key="r%d" % i))
+        return cs
+    def r_judge(c, impl, m):
+        st, f = impl
+        if st != "ok": return ("violation", "rhythm program did not compile normally: " + st)
+        if f["bin1"] != f["bin2"]: return ("violation", "a block inside Rhythm{} is not the block over the drum notes: %r vs %r" % (c["src"][:120], c["src2"][:120]))
+        return None
+    s5 = Stream("rhythmblocks", cases if (cases and only == "rhythmblocks") else mk_r(), lambda c, st, f: [], r_judge, lambda c, i, m: i[1].get("bin1") if i[0] == "ok" else None,
+                "Sub / tuplet / loop blocks inside Rhythm{} vs the same blocks over n-notes")
     s4 = Stream("oncemarks", cases if (cases and only == "oncemarks") else mk_q(), lambda c, st, f: [], q_judge, lambda c, i, m: i[1].get("bin1") if i[0] == "ok" else None,
                 "octave-once marks inside blocks vs explicit octave commands")
     s3 = Stream("chordtie", cases if (cases and only == "chordtie") else mk_ct(), lambda c, st, f: [], ct_judge,
                 lambda c, i, m: i[1].get("bin1") if i[0] == "ok" else None, "chord with tie marks vs the same chord without", timeout_case=20.0)
     sx = execstream.exec_stream(tier, rng, P, only, cases)
-    return [s for s in (s1, s3, s4, sx) if only in (None, s.name)]
+    return [s for s in (s1, s3, s4, s5, sx) if only in (None, s.name)]
